@@ -20,6 +20,35 @@ func (p *Prog) writersOf(f *types.Var) map[string][]*ssa.Store {
 	return out
 }
 
+// ownerChain returns the names a write in fn may be attributed to: fn's
+// top-level function and, while that function has exactly one static caller
+// (an extracted helper), that caller, up to four levels.
+func (p *Prog) ownerChain(fn *ssa.Function) []string {
+	top := TopLevel(fn)
+	out := []string{fnName(top)}
+	cur := top
+	for i := 0; i < 4; i++ {
+		n := p.CG.Nodes[cur]
+		if n == nil {
+			break
+		}
+		callers := map[*ssa.Function]bool{}
+		for _, e := range n.In {
+			if e.Caller.Func != nil && e.Site != nil && e.Site.Common().StaticCallee() == cur {
+				callers[TopLevel(e.Caller.Func)] = true
+			}
+		}
+		if len(callers) != 1 || cur.Object() == nil || cur.Object().Exported() {
+			break
+		}
+		for c := range callers {
+			cur = c
+		}
+		out = append(out, fnName(cur))
+	}
+	return out
+}
+
 // whoRule: the frozen who-may-write table. Each entry names the functions
 // (top-level, closures are attributed to their enclosing function) that may
 // store to a field, with the reason. A store anywhere else is a violation:
@@ -46,8 +75,18 @@ func ruleWho(entries []whoEntry) func(c *Ctx) {
 			for _, n := range names {
 				c.inst(1)
 				pos := c.P.InstrPos(ws[n][0])
-				if reason, ok := e.Writers[n]; ok {
-					c.ok(e.Field, "written by "+n, pos, reason)
+				owner, reason, ok := n, "", false
+				for _, cand := range c.P.ownerChain(ws[n][0].Parent()) {
+					if r, has := e.Writers[cand]; has {
+						owner, reason, ok = cand, r, true
+						break
+					}
+				}
+				if ok {
+					if owner != n {
+						reason += " (in helper " + n + ", whose only caller chain leads to " + owner + ")"
+					}
+					c.ok(e.Field, "written by "+owner, pos, reason)
 				} else {
 					c.viol(e.Field, "written by "+n, pos, fmt.Sprintf("%s is not a listed writer of %s (listed: %s); the accounting and typestate rules are established for the listed writers only", n, e.Field, strings.Join(sortedKeys(boolMap(e.Writers)), ", ")))
 				}
@@ -93,6 +132,13 @@ func ruleStateTable(field string, names map[int64]string, table []stateWrite) fu
 				continue
 			}
 			key := fmt.Sprintf("%s=%d", top, k)
+			for _, cand := range c.P.ownerChain(st.Parent()) {
+				if _, has := allowed[fmt.Sprintf("%s=%d", cand, k)]; has {
+					top = cand
+					key = fmt.Sprintf("%s=%d", cand, k)
+					break
+				}
+			}
 			nm := names[k]
 			if why, ok := allowed[key]; ok {
 				c.ok(field, fmt.Sprintf("%s sets %s", top, nm), pos, why)
